@@ -1,6 +1,6 @@
 use crate::runtime::list::get_access_addr;
 use crate::runtime::utilities::{next_ref, push_unit};
-use garnish_lang_traits::{GarnishData, GarnishDataType, Instruction, RuntimeError};
+use garnish_lang_traits::{ErrorType, GarnishData, GarnishDataType, Instruction, RuntimeError};
 
 pub fn access<Data: GarnishData>(this: &mut Data) -> Result<Option<Data::Size>, RuntimeError<Data::Error>> {
     let right_addr = next_ref(this)?;
@@ -25,9 +25,17 @@ pub fn access<Data: GarnishData>(this: &mut Data) -> Result<Option<Data::Size>, 
         | (GarnishDataType::Concatenation, GarnishDataType::Number)
         | (GarnishDataType::Concatenation, GarnishDataType::Symbol)
         | (GarnishDataType::Slice, GarnishDataType::Number)
-        | (GarnishDataType::Slice, GarnishDataType::Symbol) => match get_access_addr(this, right_addr, left_addr)? {
-            None => push_unit(this)?,
-            Some(i) => this.push_register(i)?,
+        | (GarnishDataType::Slice, GarnishDataType::Symbol) => match get_access_addr(this, right_addr.clone(), left_addr.clone()) {
+            Ok(None) => push_unit(this)?,
+            Ok(Some(i)) => this.push_register(i)?,
+            // what a slice can be accessed by depends on the value it selects from
+            Err(e) if e.get_type() == ErrorType::UnsupportedOpTypes => {
+                let (l, r) = (this.get_data_type(left_addr.clone())?, this.get_data_type(right_addr.clone())?);
+                if !this.defer_op(Instruction::Access, (l, left_addr), (r, right_addr))? {
+                    push_unit(this)?
+                }
+            }
+            Err(e) => Err(e)?,
         },
         (l, r) => {
             if !this.defer_op(Instruction::Access, (l, left_addr), (r, right_addr))? {
